@@ -215,6 +215,12 @@ def load_discipline(rep, F, G, tag):
         # settings validated too
         sv = [c for c in lf.calls if c.callee.name == 'validate' and lf.dominates(c.bb, nw.bb)]
         R.check(len(sv) >= 1, 'settings-validated' + tag, 'the settings taken from the file are not validated before use', lf.loc())
+        # ... and what is validated is what is used: the settings object handed to the constructor (override or stored)
+        used = canon(lf.sym_operand(nw.args[-1])) if nw.args else None
+        vals = [canon(lf.sym_operand(c.args[0])) for c in sv if c.args]
+        R.check(used is not None and used in vals, 'settings-validated-are-used' + tag,
+                'load_from_file validates %s but constructs the solver with %s: an invalid override is not caught (panic in the constructor) and a valid '
+                'override cannot rescue a file whose stored settings are unusable' % ([v[:70] for v in vals], used and used[:70]), lf.loc())
 
     R.guard(body)
 
